@@ -5,7 +5,11 @@ Case kinds
   op="chain"  a spectrum (computed from data, or injected frequency/power arrays) followed by a sequence of
               in_range / _exclude_range / downsampled_by / identify_peaks / with_spectrum steps, or the
               calculate_power_spectrum pipeline; every step is compared with the model run on the
-              implementation's own doubles (sent as exact rationals).
+              implementation's own doubles (sent as exact rationals).  The sequence runs on the real objects, each
+              step on what the previous one returned; ["again"] repeats the latest step on the same source object,
+              ["back"] continues from the source object of the latest step (see plan()).  Model op and oracle see
+              only the arrays of the spectrum a step is applied to and the step's arguments, so anything a call
+              remembers on an object (or hands on through copy()) and lets influence a later answer shows up.
 """
 import itertools
 import math
@@ -25,6 +29,7 @@ THEOREMS = [
     "Verif.C10.block_spec_spectrum",
     "Verif.C10.block_block_nppb",
     "Verif.C10.pipeline_order",
+    "Verif.C10.exclude_memoryless",
     "Verif.C10.peaks_total",
     "Verif.C10.peaks_cover",
     "Verif.C10.peaks_above_baseline",
@@ -135,18 +140,25 @@ def run_chain(case):
     answers, ops = [], []
     src = case["src"]
     ps = None
+    raw_f = raw_p = None
     try:
         ps = make_ps(case)
+        raw_f, raw_p = ps.frequency.copy(), ps.power.copy()
         if "x" in src:
             answers.append(show_psd(ps))
             ops.append(psd_op(src["x"], src["fs"], src.get("ws")))
     except Exception as e:
         answers.append(errname(e))
         ops.append(psd_op(src["x"], src["fs"], src.get("ws")))
-    for st in case["steps"]:
-        kind = st[0]
-        if ps is None:
+    objs = [ps]  # objs[0] the initial spectrum, objs[j + 1] the object returned by the j-th applied step
+    for st, src_obj, _ in plan(case):
+        if objs[0] is None:
             break
+        # the step is applied to the object an earlier step returned or was applied to (plan()): "again" repeats a
+        # step ON THE SAME SOURCE OBJECT, "back" continues from the source of a step after it has been used; whatever
+        # a call remembers on / changes in its source (or hands on through copy()) must not show in later answers
+        ps = objs[src_obj]
+        kind = st[0]
         f_in, p_in, nppb_in = ps.frequency.copy(), ps.power.copy(), int(ps.num_points_per_block)
         try:
             if kind == "inrange":
@@ -168,6 +180,7 @@ def run_chain(case):
             elif kind == "pipeline":
                 # calculate_power_spectrum on the source data; the model runs on the raw spectrum's doubles
                 lo, hi, rs, k = st[1], st[2], [(a, b) for a, b in st[3]], st[4]
+                f_in, p_in = raw_f, raw_p
                 ops.append(f"c10.pipeline {enc_rat(lo)} {enc_rat(hi)} {enc_list(rs, lambda r: enc_rat(r[0]) + ':' + enc_rat(r[1]))} {k} {ratlist(f_in)} {ratlist(p_in)}")
                 with warnings.catch_warnings():
                     warnings.simplefilter("ignore")
@@ -195,6 +208,7 @@ def run_chain(case):
             if len(ops) < len(answers):
                 ops.append("c10.missing-op")
             break
+        objs.append(ps)
     _last.update(key=key, case=case, val=(answers, ops))
     return answers, ops
 
@@ -240,13 +254,38 @@ def _rats(s):
     return dec_list(s, dec_rat)
 
 
+def plan(case):
+    """The applied steps of a chain as (step, index of the object it is applied to, is-a-repetition): object 0 is the
+    initial spectrum, object j + 1 what the j-th applied step returned (its source again for the steps that only read).
+    ["again"] repeats the latest step that has not been taken back on the same source object; ["back"] takes the
+    latest step back: the chain continues from that step's source object (which has been used once by then)."""
+    out, hist, cur = [], [], 0
+    for st in case["steps"]:
+        if st[0] == "back":
+            if hist:
+                cur = out[hist.pop()][1]
+        elif st[0] == "again":
+            if hist:
+                out.append((out[hist[-1]][0], out[hist[-1]][1], True))
+                cur = len(out)
+        else:
+            out.append((st, cur, False))
+            hist.append(len(out) - 1)
+            cur = len(out)
+    return out
+
+
+def eff_steps(case):
+    return [st for st, _, _ in plan(case)]
+
+
 def op_kind(case, i):
     if case["op"] == "psd":
         return "c10.psd"
     off = 1 if "x" in case["src"] else 0
     if i < off:
         return "c10.psd"
-    return "c10." + case["steps"][i - off][0]
+    return "c10." + eff_steps(case)[i - off][0]
 
 
 def agree(case, i, ia, ma):
@@ -392,9 +431,126 @@ def _pairs(s):
     return [] if s == "[]" else [tuple(dec_rat(v) for v in r.split(":")) for r in s[1:-1].split(",")]
 
 
+_STOP = "\0stop"  # verdict of a step after which nothing further is determined by the property
+
+
+def oracle_step(st, state, ans, ctx):
+    """One step judged from the property text.  state = (f, p, nppb) of the spectrum the step is applied to (exact
+    rationals of the implementation's own doubles); returns (verdict, state after): verdict None = as stated,
+    _STOP = as stated and the chain ends here, otherwise the violated clause.  Nothing but `state` and the step's own
+    arguments enters: what was done to the spectrum before (or to the object it was derived from) is irrelevant."""
+    f, p, nppb = state
+    kind = st[0]
+    if kind == "inrange":
+        lo, hi = F(st[1]), F(st[2])
+        keep = [(a, b) for a, b in zip(f, p) if lo < a <= hi]
+        t = ans.split(" ")
+        if _is_err(ans) or list(zip(_rats(t[0]), _rats(t[1]))) != keep:
+            return f"in_range({st[1]!r}, {st[2]!r}): kept bins are not exactly those with f_min < f <= f_max", state
+        return None, ([a for a, _ in keep], [b for _, b in keep], nppb)
+    if kind == "exclude":
+        rs = [(F(a), F(b)) for a, b in st[1]]
+        keep = [(a, b) for a, b in zip(f, p) if not any(lo <= a < hi for lo, hi in rs)]
+        t = ans.split(" ")
+        if _is_err(ans) or list(zip(_rats(t[0]), _rats(t[1]))) != keep:
+            return f"exclude_range({st[1]!r}): removed bins are not exactly those with f_min <= f < f_max", state
+        return None, ([a for a, _ in keep], [b for _, b in keep], nppb)
+    if kind in ("block", "pipeline"):
+        if kind == "pipeline":
+            lo, hi, rs, k = F(st[1]), F(st[2]), [(F(a), F(b)) for a, b in st[3]], st[4]
+            f, p = ctx["raw"]
+            keep = [(a, b) for a, b in zip(f, p) if lo < a <= hi and not any(l <= a < h for l, h in rs)]
+            f, p = [a for a, _ in keep], [b for _, b in keep]
+            nppb = 1
+        else:
+            k = st[1]
+        if k == 0:
+            return (_STOP if _is_err(ans) else "block size 0 accepted"), state
+        if _is_err(ans):
+            return f"{kind}: unexpected {ans}", state
+        nb = len(f) // k
+        ef = [sum(f[i * k : (i + 1) * k]) / k for i in range(nb)]
+        ep = [sum(p[i * k : (i + 1) * k]) / k for i in range(nb)]
+        t = ans.split(" ")
+        gf, gp = _rats(t[0]), _rats(t[1])
+        if len(gf) != nb or len(gp) != nb:
+            return f"{kind}: {len(gf)} blocks of {k} from {len(f)} bins (expected {nb})", state
+        for e, g, what in [(ef, gf, "frequency"), (ep, gp, "power")]:
+            for i in range(nb):
+                if abs(e[i] - g[i]) > Fraction(TOL) * max(abs(e[i]), abs(g[i])):
+                    return f"{kind}: block {i} {what} {float(g[i])!r} is not the mean {float(e[i])!r} of bins {i * k}..{(i + 1) * k - 1}", state
+        if int(t[2]) != nppb * k:
+            return f"{kind}: num_points_per_block={t[2]}, expected {nppb}*{k}", state
+        return None, (gf, gp, nppb * k)
+    if kind == "withspec":
+        m, nn = st[1], st[2]
+        if m != len(p):
+            return (_STOP if ans == "ValueError" else "with_spectrum accepted a vector of the wrong length"), state
+        if ans != f"{nn} {m}":
+            return f"with_spectrum: got {ans}", state
+        return None, (f, [Fraction(1)] * m, nn)
+    if kind == "binwidth":
+        if ctx["data"]:
+            nwin = ctx["nwin"]
+            npw = ctx["tsu"] // nwin
+            exp = Fraction(float(ctx["fs"])) / npw * Fraction(nppb, nwin)  # (spacing of the raw bins) * (bins per block)
+            if _is_err(ans) or abs(dec_rat(ans) - exp) > Fraction(TOL) * exp:
+                return f"bin width {float(dec_rat(ans))!r} != fs/N_w*k = {float(exp)!r}", state
+        return None, state
+    if kind == "peaks":
+        return oracle_peaks(st, state, ans), state
+    return None, state
+
+
+def oracle_peaks(st, state, ans):
+    """the clause identify_peaks violates, None, or _STOP where the call raises (as it must) and the chain ends"""
+    f, p, nppb = state
+    table, baseline, cutoff = st[1], st[2], st[3]
+    if nppb != 1 or cutoff <= baseline or baseline < 0:
+        return _STOP if ans == "ValueError" else f"identify_peaks: expected ValueError, got {ans[:60]}"
+    if len(table) != len(p):
+        return _STOP
+    pf = np.array([float(v) for v in p])
+    flat = pf / np.array(table, dtype=float)
+    above = [i for i in range(len(flat)) if flat[i] > cutoff]
+    if _is_err(ans):
+        if ans == "IndexError" and above and len(f) < 2:
+            return _STOP  # df = frequency[1] - frequency[0] does not exist
+        return f"identify_peaks: unexpected {ans}"
+    rngs = _pairs(ans)
+    if not above:
+        return None if not rngs else "identify_peaks: ranges reported although no bin exceeds the cut-off"
+    df = f[1] - f[0]
+    increasing = all(f[i] < f[i + 1] for i in range(len(f) - 1))
+    uniform = increasing and all(abs((f[i + 1] - f[i]) - df) <= Fraction(TOL) * abs(df) for i in range(len(f) - 1))
+    if not increasing:
+        return None  # not a spectrum's frequency axis: left to the model comparison (index level)
+    for i in above:
+        if not any(lo <= f[i] < hi for lo, hi in rngs):
+            return f"identify_peaks: bin {i} exceeds the cut-off but lies in no returned range"
+    if df > 0 and uniform:
+        eps = Fraction(1, 10**6) * df
+        for lo, hi in rngs:
+            inside = [i for i in range(len(f)) if lo <= f[i] < hi - eps]
+            if any(flat[i] < baseline for i in inside):
+                return "identify_peaks: a returned range contains a bin below the baseline"
+            if not any(flat[i] > cutoff for i in inside):
+                return "identify_peaks: a returned range contains no bin above the cut-off"
+            # maximal: the neighbours are below the baseline; upper edge = last frequency + df
+            first, last = inside[0], inside[-1]
+            if first > 0 and flat[first - 1] >= baseline or last + 1 < len(f) and flat[last + 1] >= baseline:
+                return "identify_peaks: a returned range is not a maximal baseline run"
+            if lo != f[first] or abs(hi - (f[last] + df)) > eps:
+                return "identify_peaks: range edges are not (first frequency, last frequency + df)"
+        if any(rngs[i][1] > rngs[i + 1][0] for i in range(len(rngs) - 1)):
+            return "identify_peaks: ranges overlap or are out of order"
+    return None
+
+
 def oracle_chain(case, ia):
     src = case["src"]
     idx = 0
+    ctx = {"data": "x" in src, "raw": None, "tsu": 4, "fs": 1.0, "nwin": 1}
     if "x" in src:
         if _is_err(ia[0]):
             if expected_npw(src, len(src["x"])) == 0:
@@ -402,114 +558,22 @@ def oracle_chain(case, ia):
             return f"unexpected error {ia[0]} constructing the spectrum"
         tsu, nppb, f, p = _parse_psd(ia[0])
         f, p = [F(v) for v in f], [F(v) for v in p]
-        fs = src["fs"]
         idx = 1
-        raw = (list(f), list(p))
+        ctx.update(raw=(list(f), list(p)), tsu=tsu, fs=src["fs"], nwin=int(ia[0].split(" ")[1]))
     else:
         f, p, nppb = [F(v) for v in src["freq"]], [F(v) for v in src["power"]], src.get("nppb", 1)
-        tsu, fs = 4, 1.0
-    for st in case["steps"]:
+    states = [(f, p, nppb)]  # states[j + 1]: the spectrum after the j-th applied step, as the property determines it
+    for st, src_state, again in plan(case):
         if idx >= len(ia):
             return "harness-bug: fewer answers than steps"
         ans = ia[idx]
         idx += 1
-        kind = st[0]
-        if kind == "inrange":
-            lo, hi = F(st[1]), F(st[2])
-            keep = [(a, b) for a, b in zip(f, p) if lo < a <= hi]
-            t = ans.split(" ")
-            if _is_err(ans) or list(zip(_rats(t[0]), _rats(t[1]))) != keep:
-                return f"in_range({st[1]!r}, {st[2]!r}): kept bins are not exactly those with f_min < f <= f_max"
-            f, p = [a for a, _ in keep], [b for _, b in keep]
-        elif kind == "exclude":
-            rs = [(F(a), F(b)) for a, b in st[1]]
-            keep = [(a, b) for a, b in zip(f, p) if not any(lo <= a < hi for lo, hi in rs)]
-            t = ans.split(" ")
-            if _is_err(ans) or list(zip(_rats(t[0]), _rats(t[1]))) != keep:
-                return f"exclude_range({st[1]!r}): removed bins are not exactly those with f_min <= f < f_max"
-            f, p = [a for a, _ in keep], [b for _, b in keep]
-        elif kind in ("block", "pipeline"):
-            if kind == "pipeline":
-                lo, hi, rs, k = F(st[1]), F(st[2]), [(F(a), F(b)) for a, b in st[3]], st[4]
-                f, p = raw
-                keep = [(a, b) for a, b in zip(f, p) if lo < a <= hi and not any(l <= a < h for l, h in rs)]
-                f, p = [a for a, _ in keep], [b for _, b in keep]
-                nppb = 1
-            else:
-                k = st[1]
-            if k == 0:
-                return None if _is_err(ans) else "block size 0 accepted"
-            if _is_err(ans):
-                return f"{kind}: unexpected {ans}"
-            nb = len(f) // k
-            ef = [sum(f[i * k : (i + 1) * k]) / k for i in range(nb)]
-            ep = [sum(p[i * k : (i + 1) * k]) / k for i in range(nb)]
-            t = ans.split(" ")
-            gf, gp = _rats(t[0]), _rats(t[1])
-            if len(gf) != nb or len(gp) != nb:
-                return f"{kind}: {len(gf)} blocks of {k} from {len(f)} bins (expected {nb})"
-            for e, g, what in [(ef, gf, "frequency"), (ep, gp, "power")]:
-                for i in range(nb):
-                    if abs(e[i] - g[i]) > Fraction(TOL) * max(abs(e[i]), abs(g[i])):
-                        return f"{kind}: block {i} {what} {float(g[i])!r} is not the mean {float(e[i])!r} of bins {i * k}..{(i + 1) * k - 1}"
-            if int(t[2]) != nppb * k:
-                return f"{kind}: num_points_per_block={t[2]}, expected {nppb}*{k}"
-            f, p, nppb = gf, gp, nppb * k
-        elif kind == "withspec":
-            m, nn = st[1], st[2]
-            if m != len(p):
-                return None if ans == "ValueError" else "with_spectrum accepted a vector of the wrong length"
-            if ans != f"{nn} {m}":
-                return f"with_spectrum: got {ans}"
-            p, nppb = [Fraction(1)] * m, nn
-        elif kind == "binwidth":
-            if "x" in src:
-                nwin = int(ia[0].split(" ")[1])
-                npw = tsu // nwin
-                exp = Fraction(float(fs)) / npw * Fraction(nppb, nwin)  # (spacing of the raw bins) * (bins per block)
-                if _is_err(ans) or abs(dec_rat(ans) - exp) > Fraction(TOL) * exp:
-                    return f"bin width {float(dec_rat(ans))!r} != fs/N_w*k = {float(exp)!r}"
-        elif kind == "peaks":
-            table, baseline, cutoff = st[1], st[2], st[3]
-            if nppb != 1 or cutoff <= baseline or baseline < 0:
-                return None if ans == "ValueError" else f"identify_peaks: expected ValueError, got {ans[:60]}"
-            if len(table) != len(p):
-                return None
-            pf = np.array([float(v) for v in p])
-            flat = pf / np.array(table, dtype=float)
-            above = [i for i in range(len(flat)) if flat[i] > cutoff]
-            if _is_err(ans):
-                if ans == "IndexError" and above and len(f) < 2:
-                    return None  # df = frequency[1] - frequency[0] does not exist
-                return f"identify_peaks: unexpected {ans}"
-            rngs = _pairs(ans)
-            if not above:
-                return None if not rngs else "identify_peaks: ranges reported although no bin exceeds the cut-off"
-            df = f[1] - f[0]
-            increasing = all(f[i] < f[i + 1] for i in range(len(f) - 1))
-            uniform = increasing and all(abs((f[i + 1] - f[i]) - df) <= Fraction(TOL) * abs(df) for i in range(len(f) - 1))
-            if not increasing:
-                return None  # not a spectrum's frequency axis: left to the model comparison (index level)
-            for i in above:
-                if not any(lo <= f[i] < hi for lo, hi in rngs):
-                    return f"identify_peaks: bin {i} exceeds the cut-off but lies in no returned range"
-            if df > 0 and uniform:
-                eps = Fraction(1, 10**6) * df
-                for lo, hi in rngs:
-                    inside = [i for i in range(len(f)) if lo <= f[i] < hi - eps]
-                    if any(flat[i] < baseline for i in inside):
-                        return "identify_peaks: a returned range contains a bin below the baseline"
-                    if not any(flat[i] > cutoff for i in inside):
-                        return "identify_peaks: a returned range contains no bin above the cut-off"
-                    # maximal: the neighbours are below the baseline; upper edge = last frequency + df
-                    first, last = inside[0], inside[-1]
-                    if first > 0 and flat[first - 1] >= baseline or last + 1 < len(f) and flat[last + 1] >= baseline:
-                        return "identify_peaks: a returned range is not a maximal baseline run"
-                    if lo != f[first] or abs(hi - (f[last] + df)) > eps:
-                        return "identify_peaks: range edges are not (first frequency, last frequency + df)"
-                if any(rngs[i][1] > rngs[i + 1][0] for i in range(len(rngs) - 1)):
-                    return "identify_peaks: ranges overlap or are out of order"
+        verdict, state = oracle_step(st, states[src_state], ans, ctx)
+        if verdict == _STOP:
             return None
+        if verdict:
+            return ("second call on the same spectrum object: " if again else "") + verdict
+        states.append(state)
     return None
 
 
@@ -524,7 +588,7 @@ def nontrivial(case, ia):
         return not _is_err(ia[0]) and len(set(case["x"])) > 1
     if any(_is_err(a) for a in ia):
         return True
-    for st, ans in zip(case["steps"], ia[1 if "x" in case["src"] else 0 :]):
+    for st, ans in zip(eff_steps(case), ia[1 if "x" in case["src"] else 0 :]):
         if st[0] in ("inrange", "exclude", "block", "pipeline"):
             n_out = 0 if ans.startswith("[]") else ans.split(" ")[0].count(",") + 1
             if n_out > 0:
@@ -562,7 +626,8 @@ def shrink(case):
             for i in range(len(case["steps"])):
                 c = dict(case)
                 c["steps"] = case["steps"][:i] + case["steps"][i + 1 :]
-                yield c
+                if plan(c):
+                    yield c
         src = case["src"]
         if "x" in src and len(src["x"]) > 4:
             for cut in (src["x"][: len(src["x"]) // 2], src["x"][:-1]):
@@ -710,38 +775,81 @@ def peaks_table(rng, p, baseline, cutoff):
     return table
 
 
+def gap_ranges(rng, cur):
+    """ranges that cut bins out of the MIDDLE of the running axis (both neighbours survive), so that a later block
+    average has blocks that straddle the gap and whose mean frequency lies inside the range that made it"""
+    rs = []
+    if len(cur) >= 3:
+        for _ in range(rng.choice([1, 1, 2])):
+            i = rng.randint(1, len(cur) - 2)
+            j = rng.randint(i, min(len(cur) - 2, i + rng.choice([0, 1, 2, 3])))
+            lo = cur[i] if rng.chance(0.6) else 0.5 * (cur[i - 1] + cur[i])
+            hi = cur[j + 1] if rng.chance(0.6) else 0.5 * (cur[j] + cur[j + 1])
+            rs.append([lo, hi])
+    return rs
+
+
 def chain_steps(rng, fr, pw, data_src):
-    """1-3 steps; the running frequency list is tracked approximately to aim the edges"""
+    """1-6 steps; the running frequency list is tracked approximately to aim the edges.  Later steps come back to
+    the arguments of earlier ones (the same ranges excluded / selected again after the axis has changed under them,
+    the same block size again) and steps are repeated on the object they were first applied to: the answer of a step
+    is determined by the spectrum it is applied to and its arguments, not by what was asked before."""
     steps = []
-    nsteps = rng.choice([1, 1, 2, 2, 3])
+    nsteps = rng.choice([1, 1, 2, 2, 3, 3, 4, 5, 6])
     cur = list(fr)
     blocked = False
+    seen = []  # every [lo, hi] used so far by an exclude or in_range step
+    stale = False  # a block average has put new frequencies under the ranges in `seen`
     for _ in range(nsteps):
         if not cur:
             cur = [0.0]
+        before = cur
         c = rng.randint(0, 11)
         if c <= 2:
-            a, b = edge_value(rng, cur), edge_value(rng, cur)
-            if rng.chance(0.85) and a > b:
-                a, b = b, a
+            if seen and rng.chance(0.6 if stale else 0.3):
+                a, b = rng.choice(seen)
+            else:
+                a, b = edge_value(rng, cur), edge_value(rng, cur)
+                if rng.chance(0.85) and a > b:
+                    a, b = b, a
             steps.append(["inrange", a, b])
+            seen.append([a, b])
             cur = [f for f in cur if a < f <= b]
         elif c <= 5:
-            rs = gen_ranges(rng, cur)
+            m = rng.randint(0, 3) if stale and rng.chance(0.5) else rng.randint(0, 9)
+            if seen and m <= 3:
+                # the very ranges of an earlier step again (all of them, or some, or together with new ones)
+                rs = [list(r) for r in (seen if m == 0 else rng.sample(seen, rng.randint(1, min(3, len(seen)))))]
+                if m == 3:
+                    rs += gen_ranges(rng, cur, 2)
+                    rng.shuffle(rs)
+            elif m <= 5:
+                rs = gap_ranges(rng, cur)
+            else:
+                rs = gen_ranges(rng, cur)
             steps.append(["exclude", rs])
+            seen.extend(list(r) for r in rs)
             cur = [f for f in cur if not any(a <= f < b for a, b in rs)]
         elif c <= 8:
             k = rng.choice([1, 2, 3, rng.randint(1, max(1, len(cur) + 1))])
             steps.append(["block", k])
             cur = [sum(cur[i * k : (i + 1) * k]) / k for i in range(len(cur) // k)]
             blocked = blocked or k != 1
+            stale = stale or (k != 1 and bool(seen))
         elif c == 9:
             steps.append(["binwidth"])
         elif c == 10:
             steps.append(["withspec", len(cur) + rng.choice([0, 0, 0, 1, -1]) if len(cur) > 0 else 0, rng.randint(1, 5)])
-            break
+            if rng.chance(0.5):
+                break
         else:
             break
+        u = rng.randint(0, 19)
+        if u <= 1:
+            steps.append(["again"])
+        elif u == 2 and steps[-1][0] in ("inrange", "exclude", "block", "withspec"):
+            steps.append(["back"])  # go on from the object that step was applied to
+            cur = before
     return steps
 
 
@@ -770,6 +878,27 @@ def small_scope(quick):
             if 1 <= k <= n // 2:
                 for k2 in range(1, n // k + 2):
                     yield {"stream": "small-scope", "op": "chain", "src": src, "steps": [["block", k], ["block", k2]]}
+    # coming back with the same arguments after the axis has changed: range step, block average, the SAME range step
+    # again (the block means are new frequencies: a block that straddles the gap an exclusion left has its mean inside
+    # the excluded range; one that straddles the edge of a selected range has its mean outside ...), every range with
+    # integer / half-integer edges on an integer axis, every block size 1..3 (4); the step twice in a row, twice on the
+    # same object, on an object that has been block averaged / restricted before (taken back), and the exclusion again
+    # together with a second, different one
+    nmax = 7 if quick else 10
+    for n in range(2, nmax + 1):
+        src = {"freq": [float(i) for i in range(n)], "power": [float((i * 5) % 7 + 0.25) for i in range(n)]}
+        edges = [float(v) for v in range(0, n + 1)] if quick else [v / 2.0 for v in range(-1, 2 * n + 1)]
+        for lo, hi in itertools.combinations(edges, 2):
+            for first in (["exclude", [[lo, hi]]], ["inrange", lo, hi]):
+                for k in range(1, (3 if quick else 4) + 1):
+                    yield {"stream": "small-scope", "op": "chain", "src": src, "steps": [first, ["block", k], first]}
+                yield {"stream": "small-scope", "op": "chain", "src": src, "steps": [first, first]}
+                yield {"stream": "small-scope", "op": "chain", "src": src, "steps": [first, ["again"], ["block", 2], ["again"]]}
+                yield {"stream": "small-scope", "op": "chain", "src": src, "steps": [["block", 2], ["back"], first, ["block", 2], ["back"], ["back"], first]}
+            if n <= 6:
+                for lo2, hi2 in itertools.combinations(edges[:: 1 if quick else 2], 2):
+                    yield {"stream": "small-scope", "op": "chain", "src": src,
+                           "steps": [["exclude", [[lo, hi]]], ["block", 2], ["exclude", [[lo2, hi2], [lo, hi]]]]}
     # identify_peaks: every pattern of five levels on up to L bins (baseline 1, cut-off 5, table of ones)
     L = 6 if quick else 7
     for n in range(1, L + 1):
@@ -915,6 +1044,8 @@ def cases(tier, rng):
                 cur = [f for f in cur if a_ < f <= b_]
             baseline, cutoff = gen_peaks_step(sub, len(cur))
             steps.append(["peaks", None, baseline, cutoff])
+        if which > 4 and fr and sub.chance(0.15):
+            steps.append(["again"])  # the pipeline / peak identification a second time on the same object
         if rescale:
             src["x"] = in_unit(src["x"], gen_unit(sub))  # the steps act on frequencies: unaffected by the unit
         yield {"stream": "random", "op": "chain", "src": src, "steps": steps, "subseed": i}
@@ -961,9 +1092,16 @@ RULE = (
     "multiplied by 1e-15..1e6, shifts in the same unit, unit conversions 1e-12..1e6 as scale factors; small scope: "
     "one signal per length in every unit 1e-15..1e6), sample rates (dyadic, 1000/3, "
     "log-uniform), windows given in seconds (exact, +-0.3, +-0.49 and +-0.5 sample ties, longer than the data), "
-    "scale factors and shifts; chains of 1-3 in_range/_exclude_range/downsampled_by/with_spectrum/bin-width steps "
+    "scale factors and shifts; chains of 1-6 in_range/_exclude_range/downsampled_by/with_spectrum/bin-width steps "
     "and calculate_power_spectrum pipelines on computed spectra and on injected arrays, with range edges placed on "
-    "a bin, one ulp beside it, between bins and outside the spectrum, overlapping/inverted exclusion ranges; "
+    "a bin, one ulp beside it, between bins and outside the spectrum, overlapping/inverted exclusion ranges, ranges "
+    "that cut bins out of the middle of the axis; later steps of a chain come back to the ranges of earlier ones "
+    "(all / some / mixed with new ones, preferably once a block average has changed the axis under them), steps are "
+    "repeated on the object they were first applied to ('again') and chains continue from an object that has been "
+    "used before ('back'); small scope: range step -> block average k -> the same range step (exclude and in_range, "
+    "every range with integer (thorough: half-integer) edges on integer axes of 2..7 (10) bins, k = 1..3 (4)), the "
+    "step twice in a row / twice on the same object / on an object block averaged before, and re-exclusion together "
+    "with every second range after blocks of two; "
     "identify_peaks with model tables built so that power/model hits the five levels in runs. Non-trivial: the "
     "signal is not constant (psd), or some step keeps at least one bin / reports a peak / raises."
 )
@@ -998,8 +1136,13 @@ def extra_coverage(results):
                 windows["remainder"] += 1
         if c["op"] == "chain":
             off = 1 if "x" in c["src"] else 0
-            for st, a in zip(c["steps"], r["impl"][off:]):
+            for (st, src_obj, again), a in zip(plan(c), r["impl"][off:]):
                 steps[st[0]] = steps.get(st[0], 0) + 1
+                if again:
+                    steps["again"] = steps.get("again", 0) + 1
+            for st in c["steps"]:
+                if st[0] == "back":
+                    steps["back"] = steps.get("back", 0) + 1
                 if st[0] == "peaks" and not _is_err(a):
                     k = 0 if a == "[]" else a.count(",") + 1
                     peaks["no-peak" if k == 0 else "one" if k == 1 else "several"] += 1
